@@ -152,6 +152,17 @@ fn items(tier: Tier) -> &'static Vec<Item> {
                 }
             }
         }
+        // magnitudes: long pipelines cycling through every way of finishing (default schedule)
+        for per_thread in [false, true] {
+            for n in if thorough { vec![70usize, 130, 300, 1030] } else { vec![70usize, 130] } {
+                let pool = slots(false, true);
+                for shift in [0usize, 1] {
+                    let mut sl: Vec<Slot> = (0..n).map(|i| pool[(i + shift * 3) % pool.len()].clone()).collect();
+                    sl.push(slots(true, true)[0].clone());
+                    v.push(Item { slots: sl, per_thread, bound: 0, withhold_tail: None });
+                }
+            }
+        }
         v
     })
 }
@@ -271,7 +282,7 @@ impl Check for C06 {
     }
     fn rule(&self, tier: Tier) -> String {
         format!(
-            "handler programs for n = 1..3 pipelined requests: request {{GET, HEAD, POST Content-Length 10 / 2000, chunked 2000}} x body read {{none, part, all}} x finish {{respond, into_writer + complete raw response, upgrade (last request), drop, panic while holding the request, respond with a body source that fails after 0/10/1500 bytes}}, one handler thread per request or one thread for all (n=3{}: GET/HEAD/Content-Length 2000 x respond/drop/panic); {} programs; schedules: all with at most {} deviations (strict); oracle (reference model): the client stream splits into exactly n final messages in request order with the status each action implies (500 for drop and panic), nothing duplicated or missing, no hang; non-trivial = all",
+            "handler programs for n = 1..3 pipelined requests: request {{GET, HEAD, POST Content-Length 10 / 2000, chunked 2000}} x body read {{none, part, all}} x finish {{respond, into_writer + complete raw response, upgrade (last request), drop, panic while holding the request, respond with a body source that fails after 0/10/1500 bytes}}, one handler thread per request or one thread for all (n=3{}: GET/HEAD/Content-Length 2000 x respond/drop/panic); pipelines of 70 and 130 (thorough: 300, 1030) requests cycling through all request kinds, reads and finishes, on one handler thread or one per request (default schedule); {} programs; schedules: all with at most {} deviations (strict); oracle (reference model): the client stream splits into exactly n final messages in request order with the status each action implies (500 for drop and panic), nothing duplicated or missing, no hang; non-trivial = all",
             if tier == Tier::Thorough { "" } else { " and n=2 in the quick tier" }, items(tier).len(),
 "2 (n<=2 with a drop/panic), 1 (other threaded programs, n=3 with a drop/panic), 0 (single handler thread)"
         )
